@@ -36,6 +36,8 @@ func isStd(c *ssa.CallCommon, pkg, name string) bool {
 }
 
 func runC09(c *Ctx) {
+	c.R.Rule("RS-no-request-time-state", "request handling writes no state that outlives the request (package-level variables, objects built at start-up, constructor variables captured by handlers) declared in the packages implementing this property", 1)
+	runStateless(c, "RS-no-request-time-state", "pkg/encryption", "pkg/sessions", "pkg/cookies", "pkg/middleware.storedSessionLoader")
 	r := c.R
 	r.Rule("R1-window", "Validate ok => expiration==0 || (t.After(now-expiration) && t.Before(now+5m)), t parsed from the signed timestamp part", 2)
 	r.Rule("R2-callers-pass-expire", "every Validate call passes Cookie.Expire", 3)
